@@ -1,0 +1,10 @@
+//go:build verif
+// +build verif
+
+package distributed
+
+// SetClockForVerif replaces the package clock (UnixNano by default) used to stamp
+// replicated entries. Verification harness only; built with -tags verif.
+func SetClockForVerif(f func() int64) {
+	clock = f
+}
